@@ -60,7 +60,38 @@ void second_case(vh::Case& c) {
   if (!E.offdiag.empty()) c.nontrivial(vh::hash_str(vh::vstr(vals), vh::hash_mix(vh::hash_str("second"), (uint64_t)(rows * 64 + cols))));
   c.sample("{\"history\":\"" + vh::jesc(vh::G().history.substr(0, 600)) + "\"}");
 }
+// closed-form checks of the model itself (a failure here is a harness failure, not a finding about GUDHI)
+void model_selftest(vh::Case& c) {
+  Ctx X(c);
+  struct T { int r, cN; std::vector<double> v; std::vector<Interval> want; double mn; };
+  const std::vector<T> tests = {
+      {0, 5, {3, 1, 2, 0, 5}, {{0, 1, 2}}, 0},                                  // two basins merging over the sample of value 2
+      {0, 4, {1, 1, 1, 1}, {}, 1},                                              // plateau
+      {0, 6, {0, 4, 1, 3, 2, 5}, {{0, 1, 4}, {0, 2, 3}}, 0},
+      {3, 3, {0, 0, 0, 0, 7, 0, 0, 0, 0}, {{1, 0, 7}}, 0},                      // a ring around a high cell: one 1-cycle
+      {3, 3, {0, 5, 1, 5, 5, 5, 5, 5, 5}, {{0, 1, 5}}, 0},                      // two minima joined at 5
+      {2, 2, {6, 0, 7, 4}, {}, 0},                                              // every sublevel set of a 2x2 rectangle is star-shaped
+      {2, 3, {0, 9, 9, 5, 9, 1}, {{0, 1, 9}}, 0},
+      {3, 4, {0, 0, 0, 0, 0, 3, 0, 0, 0, 0, 0, 0}, {{1, 0, 3}}, 0},
+      {3, 5, {0, 0, 0, 0, 0, 0, 2, 0, 4, 0, 0, 0, 0, 0, 0}, {{1, 0, 2}, {1, 0, 4}}, 0},  // two holes
+      {3, 3, {1, 0, 1, 0, 1, 0, 1, 0, 1}, {}, 0},                               // diagonal contacts are connected (shared vertex)
+  };
+  for (auto& t : tests) {
+    Expected E = expected_of(t.r, t.cN, t.v);
+    std::vector<Interval> w = t.want; std::sort(w.begin(), w.end());
+    c.count("cmp.model_selftest");
+    Input_txt txt{t.r, t.cN, &t.v};
+    if (E.offdiag != w || E.minimum != t.mn || E.n_essential != 1)
+      X.violation("harness.model_selftest", "closed_form", [&] { return "model on " + txt + " gives " + oracle::show(E.offdiag) + " min " + vh::str(E.minimum) + " expected " + oracle::show(w); });
+    // number of cells = sum over all pairs (each finite pair uses two cells, the essential class one)
+    size_t ncells = t.r ? (size_t)(2 * t.r + 1) * (2 * t.cN + 1) : (size_t)(2 * t.cN + 1);
+    if (2 * (E.offdiag.size() + E.diag.size()) + 1 != ncells)
+      X.violation("harness.model_selftest", "cell_count", [&] { return "model on " + txt + ": pairs do not account for all cells"; });
+  }
+  c.nontrivial(vh::hash_str("model_selftest")); c.nontrivial(vh::hash_str("model_selftest2"));
+}
 }  // namespace
 
+VH_CONFIG("model_selftest", model_selftest);
 VH_CONFIG("second_opinion", second_case);
 VH_MAIN()
